@@ -1,0 +1,31 @@
+//go:build verif
+
+/*
+Copyright (c) Meta Platforms, Inc. and affiliates.
+Licensed under the Apache License, Version 2.0 (the "License");
+you may not use this file except in compliance with the License.
+You may obtain a copy of the License at
+    http://www.apache.org/licenses/LICENSE-2.0
+Unless required by applicable law or agreed to in writing, software
+distributed under the License is distributed on an "AS IS" BASIS,
+WITHOUT WARRANTIES OR CONDITIONS OF ANY KIND, either express or implied.
+See the License for the specific language governing permissions and
+limitations under the License.
+*/
+
+package db
+
+// VerifNewDB wraps a caller-supplied backend into a DB (simulation testing only).
+func VerifNewDB(dbi DBI) *DB { return &DB{dbi: dbi} }
+
+// VerifOpenDBI opens a real backend without wrapping it into a DB (simulation testing only).
+func VerifOpenDBI(name string, driver string) (DBI, error) {
+	d, err := Open(name, driver)
+	if err != nil {
+		return nil, err
+	}
+	return d.dbi, nil
+}
+
+// VerifSeedRand reseeds the weighted-selection random source (simulation testing only).
+func VerifSeedRand(seed int64) { localRand.Seed(seed) }
